@@ -19,10 +19,10 @@ SUITE_OK=$(grep -c "FAILED" $OUT/suite_with_patch.txt)
 cp /tmp/demo_$ID.rs tests/demo_seeded.rs
 echo "== with patch: demo"
 cargo test --offline --test demo_seeded 2>&1 | grep -E "^test result|^test .* (ok|FAILED)" | tee $OUT/demo_with_patch.txt
-git stash -q -- src
+git apply -R $OUT/patch.diff
 echo "== without patch: demo"
 cargo test --offline --test demo_seeded 2>&1 | grep -E "^test result|^test .* (ok|FAILED)" | tee $OUT/demo_without_patch.txt
-git stash pop -q
+git apply $OUT/patch.diff
 DEMO_FAILS_WITH=$(grep -c "FAILED" $OUT/demo_with_patch.txt)
 DEMO_FAILS_WITHOUT=$(grep -c "FAILED" $OUT/demo_without_patch.txt)
 echo "suite failures with patch: $SUITE_OK ; demo failures with patch: $DEMO_FAILS_WITH ; without: $DEMO_FAILS_WITHOUT"
